@@ -31,11 +31,15 @@ fn name(i: usize) -> String {
 /// a rule can then hand back a *borrowed sub-slice* of its argument that drops bytes at both ends.
 const UNIVERSE_B: [&str; 6] = ["", "\u{e9}", "a\u{e9}c", "xa\u{e9}cx", "\u{e9}c", "a\u{e9}cx"];
 
+/// universe 2: members of EQUAL byte length with different content (and sub-slice relations):
+/// a result that is "the same length as before" is not "unchanged"
+const UNIVERSE_C: [&str; 6] = ["", "ab", "ba", "abc", "cab", "bc"];
+
 fn universe(uni: u8, k: usize) -> Vec<String> {
-    if uni == 0 {
-        (0..k).map(name).collect()
-    } else {
-        UNIVERSE_B.iter().take(k).map(|s| s.to_string()).collect()
+    match uni {
+        0 => (0..k).map(name).collect(),
+        1 => UNIVERSE_B.iter().take(k).map(|s| s.to_string()).collect(),
+        _ => UNIVERSE_C.iter().take(k).map(|s| s.to_string()).collect(),
     }
 }
 
@@ -106,10 +110,10 @@ pub fn check_fn(f: &[usize], k: usize, start: usize, style: u8, form: u8, uni: u
         x
     }
     fn foreign(uni: u8, img: usize) -> &'static str {
-        if uni == 0 {
-            &"aaaaaaaaaaaa"[..img]
-        } else {
-            UNIVERSE_B[img]
+        match uni {
+            0 => &"aaaaaaaaaaaa"[..img],
+            1 => UNIVERSE_B[img],
+            _ => UNIVERSE_C[img],
         }
     }
     let s0 = names[start].clone();
@@ -312,7 +316,7 @@ pub fn run(_env: &Env, run: &Run) -> (Stats, Coverage) {
             for start in 0..k {
                 st.states += 1;
                 // transitions = applications the reference makes along the chain
-                for uni in 0..2u8 {
+                for uni in 0..3u8 {
                     for style in 0..6u8 {
                         // the argument forms only matter at entry; rotate them over styles/starts
                         for form in 0..4u8 {
@@ -364,9 +368,9 @@ pub fn run(_env: &Env, run: &Run) -> (Stats, Coverage) {
     st.sample(json!({"k": 4, "f": "0->1,1->0", "start": 0, "expected": "Err(Invalid) after 4 applications"}));
     st.sample(json!({"k": 4, "f": "0->1,1->Err(BadCodepoint)", "start": 0, "expected": "that BadCodepoint error, after 2 applications"}));
     let cov = Coverage {
-        rule: format!("state = (f, start, universe, Cow style, argument form) with f ranging over ALL {}^{} functions from a {}-element universe of strings (two universes: a^i, and distinct characters nested at the start / middle / end of each other) to that universe + two error results, instantiated with each of the three pairs of error shapes (Invalid / BadCodepoint, ProfileRuleNotApplicable / ContextRuleNotApplicable, Undefined / MissingContextRule); oracle = RFC 8264 s.7 chain semantics (first application + 3 re-applications), call log must equal the chain; plus re-entrant use f(x) = h(stabilize(x, g)) for ALL pairs (g, h) of functions on a 3/4-element universe; non-trivial = chains needing more than one application", base, k, k),
+        rule: format!("state = (f, start, universe, Cow style, argument form) with f ranging over ALL {}^{} functions from a {}-element universe of strings (three universes: a^i; distinct characters nested at the start / middle / end of each other; members of equal byte length with different content) to that universe + two error results, instantiated with each of the three pairs of error shapes (Invalid / BadCodepoint, ProfileRuleNotApplicable / ContextRuleNotApplicable, Undefined / MissingContextRule); oracle = RFC 8264 s.7 chain semantics (first application + 3 re-applications), call log must equal the chain; plus re-entrant use f(x) = h(stabilize(x, g)) for ALL pairs (g, h) of functions on a 3/4-element universe; non-trivial = chains needing more than one application", base, k, k),
         alphabet: json!({"universe": (0..k).map(name).collect::<Vec<_>>(), "universe_1": UNIVERSE_B.iter().take(k).collect::<Vec<_>>(), "errors": ["Invalid", "BadCodepoint(0x42,7,Disallowed)"]}),
-        bound_completed: format!("all {} functions x {} starts x 2 universes x 6 Cow styles (always Owned / Borrowed when unchanged / Borrowed sub-slice at the first / last occurrence of the image in the argument: prefixes, suffixes and slices that drop bytes at both ends / Borrowed 'static strings outside the argument, always or when changed) (x 4 argument forms{})", nf, k, if run.tier == Tier::Quick { "" } else { ", rotated; all 4 on every 7th function" }),
+        bound_completed: format!("all {} functions x {} starts x 3 universes x 6 Cow styles (always Owned / Borrowed when unchanged / Borrowed sub-slice at the first / last occurrence of the image in the argument: prefixes, suffixes and slices that drop bytes at both ends / Borrowed 'static strings outside the argument, always or when changed) (x 4 argument forms{})", nf, k, if run.tier == Tier::Quick { "" } else { ", rotated; all 4 on every 7th function" }),
         exhaustive: true,
         assumptions: vec!["stabilize only observes f through its return values; a universe of k strings contains every chain shape up to length k (converging after 0..k-1 steps, every cycle length <= k, failure at every step)".into()],
         extra: json!({"universe_size": k, "functions": nf}),
